@@ -207,6 +207,13 @@ structure Db where
   openRead : List Nat := []            -- read handles
   lru : List Nat := []                 -- `openBlocksLRU` (most recent first; may hold closed numbers)
   dead : List (String × Bool) := []    -- ended transactions whose handle is still used: id, writable
+  -- admissibility mode (fault / crash classes): outcomes are checked against the Spec's admissible set
+  admMode : Bool := false
+  hist : List KV := []                 -- flat metadata after each commit, oldest first
+  floor : Nat := 0                     -- commits known to be durable (clean reopen)
+  armed : Bool := false                -- a fault is armed …
+  errUsed : Bool := false              -- … and has already surfaced as an error
+  imgLo : Option Nat := none           -- an image capture is armed since that many commits
   synced : List (Nat × Nat) := []      -- harness bookkeeping: fsynced length per file touched
   maxFile : Nat
   maxCache : Nat
@@ -500,6 +507,11 @@ def fetchBlock (d : Db) (t : Tx) (bid : Nat) : Except String Bytes :=
     | none => .error "err:BlockNotFound"
     | some row =>
       let (f, o, l) := deserializeBlockLoc row
+      if d.admMode then
+        match d.blockIds.find? (·.1 == bid) with
+        | some (_, len) => .ok (blockBytes bid len)
+        | none => .error "err:DriverSpecific"
+      else
       match fileGet d.files f with
       | none => .error "err:DriverSpecific"
       | some fb =>
@@ -522,6 +534,11 @@ def fetchRegion (d : Db) (t : Tx) (bid off len : Nat) : Except String Bytes :=
       let (f, o, l) := deserializeBlockLoc row
       -- the row stores the framed record length
       if endOff < off || endOff > l - 12 then .error "err:BlockRegionInvalid" else
+      if d.admMode then
+        match d.blockIds.find? (·.1 == bid) with
+        | some (_, blen) => .ok (((blockBytes bid blen).drop off).take len)
+        | none => .error "err:DriverSpecific"
+      else
       match fileGet d.files f with
       | none => .error "err:DriverSpecific"
       | some fb =>
@@ -617,6 +634,7 @@ def cursorOp (mv cid : String) (seek : Key) : M (Option String) := do
 /-- a read through a block file handle: `open` when no handle exists yet, then `ReadAt` -/
 def readIo (file : Nat) : M Bool := do
   let d ← get
+  if d.admMode then return true
   if (fileGet d.files file).isNone then
     -- openFile fails by itself; the hook still counts the attempt
     let _ ← io "open"
@@ -729,6 +747,18 @@ def pruneBlocks (id : String) (t : Tx) (target : Nat) : M String := do
     let sorted := ids.toArray.qsort (· < ·) |>.toList
     return "[" ++ "+".intercalate (sorted.map toString) ++ "]"
   | _, _ => return "[]"
+
+/-- user-visible dump: buckets and keys without ffldb's own rows, and the indexed blocks -/
+def userDump (d : Db) (flat : KV) : String :=
+  let keys := (keysView flat metadataBucketID).filter (fun kv => kv.1 != bucketizedKey metadataBucketID writeLocKeyName)
+  let ks := keys.map (kvOut metadataBucketID)
+  let bs := (bucketsView flat metadataBucketID).filter (fun kv => kv.1.drop 8 != blockIdxBucketName)
+  let bsS := bs.map (fun kv => listToHexTok (kv.1.drop 8) ++ dumpBucket flat kv.2)
+  let blocks := d.blockIds.filterMap (fun (bid, _) =>
+    if (lookup cmpB (bucketizedKey blockIdxBucketID (blockHash bid)) flat).isSome then some (toString bid ++ ":ok,") else none)
+  "{" ++ ",".intercalate (ks ++ bsS) ++ "}#" ++ String.join blocks
+
+def flatNow (d : Db) : KV := applyToLdb d.ldb d.cKeys d.cRem
 
 /-- `BeenPruned` looks at the directory only -/
 def beenPruned (d : Db) : String :=
@@ -978,10 +1008,133 @@ def step (op : String) : M (Option String) := do
         set { d with files := fileSet d.files file (b.take off ++ [(b.getD off 0) ^^^ 1] ++ b.drop (off + 1)) }
         return some "ok"
     | _, _ => return none
+  | ["du"] =>
+    let d ← get
+    return some (userDump d (flatNow d))
   | ["da"] =>
     let d ← get
     return some (dumpAll d (applyToLdb d.ldb d.cKeys d.cRem) d.files)
   | _ => return none
+
+/-! ### admissibility mode
+
+Fault and crash classes: the implementation's observed answers are fed back and checked against the
+set of outcomes the property admits, instead of against the one outcome the I/O-level model
+predicts: a transaction under an armed fault commits completely or fails without effect; an armed
+fault surfaces as at most one error; a clean reopen keeps everything; a crash (and an image taken at
+any moment) shows the state after SOME prefix of the commits not older than the last clean reopen;
+every block the metadata of that state indexes is intact; which blocks a prune selects is not
+prescribed. File layout, write cursor and call counts are not observed. -/
+
+/-- restart on the state after `p` commits -/
+def admRestart (d : Db) (p : Nat) (cfg : Option (Nat × Nat × Nat)) : Db :=
+  let flat := (d.hist[p]?).getD []
+  let d := { d with ldb := flat, cKeys := [], cRem := [], txs := [], curs := [], dead := [], files := [],
+                    wcFile := 0, wcOff := 0, curOpen := false, openRead := [], lru := [], synced := [],
+                    hist := d.hist.take (p + 1) }
+  match cfg with
+  | some (mf, mc, net) => { d with maxFile := mf, maxCache := mc, net := net }
+  | none => d
+
+def cfgOf (f : List String) : Option (Option (Nat × Nat × Nat)) :=
+  match f with
+  | [_] => some none
+  | [_, a, b, c] => do pure (some (← a.toNat?, ← b.toNat?, ← c.toNat?))
+  | _ => none
+
+def isFetch (op : String) : Bool := ["fk", "fh", "fr", "fks", "frs", "fhs"].contains op
+
+/-- all states consistent with answer `obs` to operation `op` in state `d` -/
+def admStep (d : Db) (op obs : String) : List Db :=
+  let f := op.splitOn ":"
+  let n := d.hist.length - 1
+  let faultOk := d.armed && !d.errUsed
+  let model : List Db :=
+    match (step op).run d with
+    | (some out, d') => if out == obs then [d'] else []
+    | (none, _) => []
+  match f with
+  | ["co", id] =>
+    match d.txs.lookup id with
+    | some t =>
+      if t.writable && obs == "ok" then
+        match (commit id).run { d with fKind := "" } with
+        | (out, d') => if out == "ok" then [{ d' with hist := d'.hist ++ [flatNow d'] }] else []
+      else if t.writable && obs == "err:DriverSpecific" && faultOk then
+        [((dropTx id).run d).2 |> fun d' => { d' with errUsed := true }]
+      else model
+    | none => model
+  | ["fl"] =>
+    if obs == "ok" then [((flush).run d).2]
+    else if obs == "err:DriverSpecific" && faultOk then [{ d with errUsed := true }] else []
+  | "ro" :: _ =>
+    match cfgOf f with
+    | some cfg =>
+      if obs == "ok" then [{ (admRestart { d with ldb := flatNow d, cKeys := [], cRem := [] } n cfg) with floor := n }]
+      else if obs == "close-err:DriverSpecific" && faultOk then
+        (List.range (n + 1)).filterMap (fun p => if p ≥ d.floor then some { (admRestart d p cfg) with errUsed := true } else none)
+      else []
+    | none => []
+  | "cp" :: _ | "cps" :: _ =>
+    match cfgOf f with
+    | some cfg =>
+      if obs == "ok" then (List.range (n + 1)).filterMap (fun p => if p ≥ d.floor then some (admRestart d p cfg) else none)
+      else []
+    | none => []
+  | ["ft", _, _] => if obs == "ok" then [{ d with armed := true, errUsed := false }] else []
+  | ["fc"] =>
+    if (obs == "fired") || (obs == "idle" && !d.errUsed) then [{ d with armed := false, errUsed := false }] else []
+  | ["ti", _, _] | ["tis", _, _] => if obs == "ok" then [{ d with imgLo := some d.floor }] else []
+  | ["tx"] =>
+    match d.imgLo with
+    | none => if obs == "noimg" then [d] else []
+    | some lo =>
+      if obs == "noimg" || (List.range (n + 1)).any (fun p => p ≥ lo && userDump d ((d.hist[p]?).getD []) == obs)
+      then [{ d with imgLo := none }] else []
+  | ["du"] => if obs == userDump d (flatNow d) then [d] else []
+  -- whether block files have been pruned is a statement about the file layout
+  | ["bp", _] => if obs == "0" || obs == "1" then [d] else []
+  | ["pr", id, target] =>
+    match d.txs.lookup id, target.toNat? with
+    | some t, some target =>
+      if !t.writable || target < d.maxFile then model
+      else
+        -- which blocks a prune selects depends on the file layout; any set of indexed blocks is accepted
+        let body := ((obs.drop 1).toString.dropEnd 1).toString
+        let ids? := if body.isEmpty then some [] else (body.splitOn "+").mapM (fun (x : String) => x.toNat?)
+        match ids? with
+        | some ids =>
+          if obs.startsWith "[" && ids.all (fun bid => (t.get (bucketizedKey blockIdxBucketID (blockHash bid))).isSome) then
+            let t' := ids.foldl (fun t bid => t.del (bucketizedKey blockIdxBucketID (blockHash bid))) t
+            [((setTx id t').run d).2]
+          else []
+        | none => []
+    | _, _ => model
+  | opn :: _ =>
+    if model.isEmpty && isFetch opn && obs == "err:DriverSpecific" && faultOk then [{ d with errUsed := true }]
+    else model
+  | [] => []
+
+def admRun (maxFile maxCache : Nat) (ops obs : List String) : String :=
+  if ops.length != obs.length then "inadmissible:length" else
+  let d0 : Db := { maxFile := maxFile, maxCache := maxCache, ldb := initLdb, admMode := true, hist := [initLdb] }
+  let rec go (cands : List Db) (pairs : List (String × String)) (i : Nat) : String :=
+    match pairs with
+    | [] => if cands.isEmpty then "inadmissible:" ++ toString i else "admissible"
+    | (op, ob) :: rest =>
+      let next := (cands.flatMap (fun d => admStep d op ob)).take 64
+      if next.isEmpty then "inadmissible:" ++ toString i ++ ":" ++ op else go next rest (i + 1)
+  go [d0] (ops.zip obs) 0
+
+def runAdm : List String → String
+  | maxFile :: maxCache :: rest =>
+    match nat? maxFile, nat? maxCache with
+    | some mf, some mc =>
+      let ops := rest.takeWhile (· != "##")
+      let obs := (rest.dropWhile (· != "##")).drop 1
+      admRun mf mc ops obs
+    | _, _ => "bad-op"
+  | _ => "bad-op"
 
 def runOps (ops : List String) : M (Option (List String)) := do
   let mut outs : Array String := #[]
